@@ -205,6 +205,11 @@ func (tree *ParserT) parseExpression(exec, incLogicalOps bool) error {
 				return err
 			}
 
+			if branch.charPos < 1 || branch.expression[branch.charPos-1] != ')' {
+				// the sub-expression ended without its closing parenthesis
+				return raiseError(tree.expression, nil, tree.charPos, "missing closing parenthesis, ')'")
+			}
+
 			if exec {
 				dt, err := branch.executeExpr()
 				if err != nil {
@@ -486,6 +491,10 @@ func (tree *ParserT) parseSubExpression(exec bool) (any, error) {
 	err := branch.parseExpression(exec, true)
 	if err != nil {
 		return nil, err
+	}
+	if branch.charPos < 1 || branch.expression[branch.charPos-1] != ')' {
+		// the sub-expression ended without its closing parenthesis
+		return nil, raiseError(tree.expression, nil, tree.charPos, "missing closing parenthesis, ')'")
 	}
 	tree.charPos += branch.charPos - 1
 	if exec {
